@@ -84,10 +84,12 @@ bool load_source(World &w, int ri, const Plan &p, std::string &why) {
     std::string path = repo_path() + "/tests/hwloc/xml/" + arg; FILE *f = fopen(path.c_str(), "rb"); std::string buf;
     if (f) { char tmp[65536]; size_t n; while ((n = fread(tmp, 1, sizeof tmp, f)) > 0) buf.append(tmp, n); fclose(f); }
     rc = hwloc_topology_set_xmlbuffer(t, buf.c_str(), (int)buf.size() + 1);
-  } else { why = "unknown source kind " + kind; hwloc_topology_destroy(t); return false; }
+  } else if (kind == "snap") rc = snapshot_count() ? 0 : -1;   // "snap <index> <comp> [<env>]": an intact bundled Linux/x86 snapshot (ops_snapshot.cc); configured by the environment at load time
+  else { why = "unknown source kind " + kind; hwloc_topology_destroy(t); return false; }
   r.ev("set_source %s -> %d", kind.c_str(), rc);
   if (rc < 0) { why = "source refused"; hwloc_topology_destroy(t); r.count("probe.source_refused"); return false; }
-  rc = hwloc_topology_load(t);
+  if (kind == "snap") { unsigned long si = 0, comp = 0, env = 0; sscanf(arg.c_str(), "%lu %lu %lu", &si, &comp, &env); std::string desc; rc = snapshot_load(t, si, (unsigned)comp, (unsigned)env, &desc); r.ev("snapshot %s", desc.c_str()); }
+  else rc = hwloc_topology_load(t);
   r.ev("load -> %d", rc);
   if (rc < 0) { why = "load failed"; hwloc_topology_destroy(t); r.count("probe.load_failed"); return false; }
   // calls after load must be refused with EBUSY and leave the configuration as it is
@@ -101,7 +103,7 @@ bool load_source(World &w, int ri, const Plan &p, std::string &why) {
     if (rc2 == 0) viol0(w, "C01", "cfg.set_after_load", "set_synthetic after load succeeded");
     r.count("probe.cfg_after_load_refused");
   }
-  R = Replica(); R.t = t; R.flags = hwloc_topology_get_flags(t); R.loaded_from = kind == "synthetic" ? 0 : 1;
+  R = Replica(); R.t = t; R.flags = hwloc_topology_get_flags(t); R.loaded_from = kind == "synthetic" ? 0 : kind == "snap" ? 5 : 1;
   return true;
 }
 
